@@ -137,6 +137,33 @@ def register(reg):
     _mk(reg, Br + "get_witness_for_key_prefix", ["db", "node_hash", "key"], {"db": "db", "node_hash": "bytes"}, None,
         nb("key"))
 
+    # nibble paths handed to the traversal API and to the fog: a non-sequence is a TypeError, a sequence with an
+    # element outside 0..15 a ValueError (Nibbles(...) comes first in each of these functions)
+    def not_seq(p):
+        return lambda E, a: z3.Not(z3.Or(PyVal.is_PTup(a[p].t), PyVal.is_PTupB(a[p].t)))
+
+    def bad_nibble(p):
+        def bad(E, a):
+            from contracts.seqspec import allnib_of
+            side = []
+            ok = allnib_of(a[p].t, side)
+            for f in side:
+                E.assume(mk_bool(f))
+            return z3.Not(ok)
+        return bad
+    int_tuple = lambda E: E.fresh_seq("nibbles", "tuple", "int")
+    def mk_fog(E):
+        from contracts.fog_c import mk_fog as _mk_fog
+        return _mk_fog(E)
+    for (qual, params, pname, mk_self) in (
+            (H + "traverse", ["self", "trie_key_input"], "trie_key_input", objs.mk_hexary),
+            (H + "traverse_from", ["self", "parent_node", "trie_key_input"], "trie_key_input", objs.mk_hexary),
+            ("trie.fog:HexaryTrieFog.nearest_unknown", ["self", "key_input"], "key_input", mk_fog),
+            ("trie.fog:HexaryTrieFog.nearest_right", ["self", "key_input"], "key_input", mk_fog),
+            ("trie.fog:HexaryTrieFog.explore", ["self", "old_prefix_input", "foggy_sub_segments"], "old_prefix_input", mk_fog)):
+        _mk(reg, qual, params, {}, mk_self, not_seq(pname), raises=TypeError, name="path-is-not-a-sequence")
+        _mk(reg, qual, params, {pname: int_tuple}, mk_self, bad_nibble(pname), raises=ValueError, name="element-is-not-a-nibble")
+
     # the validators themselves
     _mk(reg, "trie.validation:validate_is_bytes", ["value"], {}, None, nb("value"), group="validation")
     def bad_length(E, a):
